@@ -138,7 +138,12 @@ def _lscan(f, init, xs, length=None, unroll=1):
     ys = None
     lvs = jax.tree_util.tree_leaves(xs)
     # Only use the same device if a single device is used
-    lvs_d = [e.devices() for e in lvs if hasattr(e, "devices")]
+    # Tracers (when called under `jax.jit`) have no concrete device
+    lvs_d = [
+        e.devices()
+        for e in lvs
+        if hasattr(e, "devices") and not isinstance(e, jax.core.Tracer)
+    ]
     like_device = list(set().union(*lvs_d))
     like_device = like_device[0] if len(like_device) == 1 else None
     length = lvs[0].shape[0] if length is None else length
